@@ -55,14 +55,14 @@ def kernel_rules(P, R):
     # degenerate rings (< 3 vertices) contribute 0: the guard compares a count of interleaved VALUES, so the threshold is 2 * 3
     guards = []
     for s in ast.walk(ar.node):
-        if isinstance(s, ast.If) and isinstance(s.test, ast.Compare) and len(s.test.ops) == 1 and isinstance(s.test.ops[0], (ast.Lt, ast.LtE)) \
-                and isinstance(s.test.comparators[0], ast.Constant) and any(isinstance(x, (ast.Continue, ast.Return)) for x in s.body):
-            lhs = astq.trace(ar, s.test.left)
-            if isinstance(lhs, ast.BinOp) and isinstance(lhs.op, ast.Sub):
-                guards.append(s)
-    for gd in guards:
-        c = gd.test.comparators[0].value
-        limit = c if isinstance(gd.test.ops[0], ast.Lt) else c + 1      # rings with fewer than `limit` values are skipped
+        if isinstance(s, ast.If) and isinstance(s.test, ast.Compare) and any(isinstance(x, (ast.Continue, ast.Return)) for x in s.body):
+            for l_, op, r_ in astq.cmp_forms(s.test):
+                if op in (ast.Lt, ast.LtE) and isinstance(r_, ast.Constant):
+                    lhs = astq.trace(ar, l_)
+                    if isinstance(lhs, ast.BinOp) and isinstance(lhs.op, ast.Sub):
+                        guards.append((s, op, r_.value))
+    for gd, op, c in guards:
+        limit = c if op is ast.Lt else c + 1      # rings with fewer than `limit` values are skipped
         R.check(limit >= 6, 'C14.a', ar, gd.test, 'rings with fewer than 3 vertices (6 interleaved values) are skipped before the wrap-around term',
                 f'the degenerate-ring guard `{norm(gd.test)}` compares a count of interleaved coordinate values with {c}: a 2-vertex ring (4 values) reaches the wrap-around term '
                 f'and gets a spurious area x0*(y1-y0)/2')
